@@ -958,8 +958,8 @@ func (r *Request) SetBody(body interface{}) *Request {
 	if body == nil {
 		return r
 	}
-	// the last body setter wins: nothing of an earlier body (a value to marshal, a reader) stays behind
-	r.marshalBody, r.unReplayableBody = nil, nil
+	// the last body setter wins: nothing of an earlier body (a value to marshal, a reader, bytes) stays behind
+	r.marshalBody, r.unReplayableBody, r.Body = nil, nil, nil
 	switch b := body.(type) {
 	case io.ReadCloser:
 		r.unReplayableBody = b
